@@ -1,7 +1,7 @@
 #!/bin/sh
 # stop every running check and solver (patterns anchored so the calling shell never matches)
-pkill -f '^python3 ./check' 2>/dev/null
-pkill -f '^python3 /verif/check' 2>/dev/null
+pkill -f 'python3 ./check' 2>/dev/null
+pkill -f 'python3 /verif/check' 2>/dev/null
 sleep 0.5
 pkill -9 -x cbmc 2>/dev/null
 exit 0
